@@ -35,6 +35,7 @@ func init() {
 	wrap("C08", c08GenerationalOrder)
 	wrap("C08", c08WriteOfferedToKeeper)
 	wrap("C20", c20CasTokenForwarded)
+	wrap("C03", c03RootNotPublishedEarly)
 	Registry["C20"].Patterns = append(Registry["C20"].Patterns, "./libraries/doltcore/doltdb")
 	Registry["C24"].Patterns = append(Registry["C24"].Patterns, "./libraries/doltcore/env/actions")
 }
@@ -575,5 +576,53 @@ func c20CasTokenForwarded(k *eng.Check) {
 		if n < 1 {
 			k.Unknown("cas-token-forwarded", eng.Name(fn)+"#token", "a hash.Hash argument of the conditional write", "none found")
 		}
+	}
+}
+
+// c03RootNotPublishedEarly: the journal is the source of truth for the root.  When ChunkJournal flushes a changed
+// table-file set to the backing manifest (which happens BEFORE the root record is written and synced), the contents it
+// writes must carry the journal's current root, not the proposed one: bootstrap falls back to the manifest's root
+// when the journal has no root record yet, so a proposed root published early survives a crash that loses its chunks.
+func c03RootNotPublishedEarly(k *eng.Check) {
+	c := k.C
+	fn := k.Fn("(*store/nbs.ChunkJournal).flushToBackingManifest")
+	if fn == nil {
+		return
+	}
+	ups := eng.Calls(fn, eng.Static("(*store/nbs.journalManifest).Update"), false)
+	if len(ups) < 1 {
+		k.Unknown("root-not-published-early", eng.Name(fn), "the backing manifest update", "no journalManifest.Update call found")
+		return
+	}
+	for _, u := range ups {
+		var mc ssa.Value
+		for _, a := range u.Common().Args {
+			if eng.ShortType(a.Type()) == "store/nbs.manifestContents" {
+				mc = a
+			}
+		}
+		if mc == nil {
+			k.Unknown("root-not-published-early", eng.Name(fn)+"#contents", "the manifestContents argument", "not found")
+			continue
+		}
+		// the argument is a load of a local copy whose root field is overwritten from j.contents.root
+		ok := false
+		if ld, isLd := mc.(*ssa.UnOp); isLd && ld.Op == token.MUL {
+			if a, isA := ld.X.(*ssa.Alloc); isA {
+				for _, ref := range *a.Referrers() {
+					fa, isFA := ref.(*ssa.FieldAddr)
+					if !isFA || eng.FieldName(fa) != "store/nbs.manifestContents.root" || fa.Referrers() == nil {
+						continue
+					}
+					for _, r2 := range *fa.Referrers() {
+						if st, isSt := r2.(*ssa.Store); isSt && st.Addr == ssa.Value(fa) &&
+							eng.FromField(st.Val, "store/nbs.ChunkJournal.contents") && st.Block().Dominates(u.(ssa.Instruction).Block()) {
+							ok = true
+						}
+					}
+				}
+			}
+		}
+		k.Require("root-not-published-early", eng.Name(fn)+"#root", "the contents flushed to the backing manifest ahead of the root record carry the journal's current root (j.contents.root), not the proposed root", ok, c.InstrPos(u.(ssa.Instruction)), "the proposed root reaches the manifest before its chunk records are durable")
 	}
 }
